@@ -30,6 +30,10 @@ add("C05", "fault_enumeration",
     "runtime monitoring: exhaustive enumeration of pool states against every policy with a reference availability oracle; end-to-end fault injection (closed / reset / half-read backends) with body-hash conservation; Go race detector",
     "Every policy is executed on every assignment of host states for pools up to size 7 (quick) / 10 (thorough) x 64 keys, through staticUpstream.Select and Policy.Select, and real proxy blocks are driven against every pattern of failing backends for pools of 2-4; the oracle checks membership in the available set, stickiness, evenness, least-loaded, first, complete body at the healthy backend and the 502 lower time bound.",
     "Availability = UpstreamHost.Available(); SRV upstreams and active health checks not driven; time only enters as a lower bound that weakens under load.")
+add("C06", "exploration",
+    "runtime monitoring of real casket instances (one listener shared by 2-6 HTTPS sites with harness-minted certificates): each probe makes a fingerprint handshake (unique first ALPN token per host pattern) and an http/1.1 connection crossed with >=10 Host headers, judged by a reference SNI matcher (exact, wildcard by label, catch-all) plus a protocol-level model of version/cipher/client-certificate negotiation; invalid site sets must make casket.Start fail and leave no listener",
+    "Held on every executed (site set, SNI, client offer, Host) combination: quick ~16k probes over 206 site sets + 90 invalid sets, thorough ~270k probes over 2006 site sets + 630 invalid sets, with the full client-offer product (10 version ranges x 4 cipher offers x 3 client-cert modes x 14 SNI names) on 6 core layouts.",
+    "Nothing asserted for SNI names that match no site when there is no catch-all, nor for which of the IP-address site or the catch-all governs an absent SNI; only Go's ClientHello and ECDSA certificates exercised; a suspected violation must repeat on 3 decided attempts.")
 add("C07", "fault_enumeration",
     "runtime monitoring: recorded client/reload histories checked with porcupine against a regular-register model (reload = begin/end write, request = read of the config marker), per-request completeness oracle, listening-socket inode identity and strace bind count; delay hook between start-new and stop-old; Go race detector",
     "Histories of 16-24 concurrent fresh-connection clients over 12-16 reloads (every third one failing at parse / setup / import / startup-callback / listen time) are recorded at the client boundary and decided by a linearizability checker against the register the statement describes; every response must be complete and self-consistent with the configuration that produced it and listening sockets must keep their inodes (thorough: exactly one bind() per address under strace).",
@@ -38,10 +42,18 @@ add("C08", "fault_enumeration",
     "runtime monitoring: per-attempt quiescent snapshots of hooked process state (instance list, event-hook registry, own listening sockets by inode from /proc, port connectability, answers of running sites) compared before/after every failed attempt; differential run against a fresh process; deadlock decided from the child's own goroutine dump (parked on a casket mutex); Go race detector",
     "64 (quick) / 1500 (thorough) histories of up to 6 attempts over {validate, Start, Restart, SIGUSR1 via the real TrapSignals handler} x 18 failure kinds (parse, directive setup, missing files, startup callback, occupied port among 4 listeners, TLS/plaintext mix), each in its own child process, every kind at every early position; the final valid load must succeed, serve, and behave as in a fresh process.",
     "fd counts recorded but only what the statement names is judged; listener creation order inside one failed start is casket's (map order), so a leak is caught per history with probability 2/3 and across histories reliably.")
+add("C09", "exploration",
+    "runtime differential (metamorphic) monitoring: original and reordered server blocks run as sibling sites of one real casket instance over a shared fixture and harness backend; responses, backend hits, innermost-handler observations and log files compared, with self-comparison and re-request confirmation to exclude order-unrelated nondeterminism; behavioural precedence checks with content tokens and hit counters; casket.ValidDirectives checked against the stated partial order",
+    "Metamorphic line-permutation testing of generated server blocks (quick 300, thorough 3000 blocks; all group-preserving permutations for <=5 lines, sampled otherwise) against a 92-request battery: 22 standard directives in 78 deterministic line variants with all 171 middleware pairs inverted; 0.34 M (quick) / 4.3 M (thorough) responses compared.",
+    "Says nothing about directives or argument forms outside the 78 variants (fastcgi, websocket, push, tls), timing effects of timeouts, TLS/HTTP2 or unsampled permutations of larger blocks.")
 add("C10", "exploration",
     "runtime monitoring in child processes with a write-ahead journal: totality oracle (returns; no panic; error names file:line>=1), verifhook step counter bounding import expansions, reference-AST differential round trip through a Dispenser walk",
     "About 0.33 M (quick) / 4.9 M (thorough) executions of the real casketfile.Parse: exhaustive <=4/5-symbol strings over the structural alphabet, mutations, random bytes, 123 import-graph fixtures (51 cyclic), 20 k / 400 k rendered ASTs with layout and placement (snippet / file / glob) variation.",
     "Termination is decided by counted doImport expansions against a bound computed from the fixture graph (plus CPU/heap guards), never by wall clock; held only for the generated alphabets and stated layout conventions.")
+add("C11", "exploration",
+    "runtime monitoring: real directive setups run in chroot-ed child processes with a write-ahead journal, per-case recover, an in-process progress watchdog and a goroutine-dump oracle for lock-parked non-returns; asynchronous crashes attributed by bisecting replays; a parsing-callback probe compares validate against a real casket.Start",
+    "About 390 k (quick) / 2.8 M (thorough) generated single- and two-directive configurations over all 29 registered http directives (keyword vocabulary scraped from /repo sources at run time), each loaded twice through ValidateAndExecuteDirectives; a stratified sample of ~2.7 k (quick) / 24.5 k (thorough) cases is also started with casket.Start and compared on directive acceptance.",
+    "Panic, process death, exit and lock-parked non-return are violations; agreement is on directive acceptance only; CPU-bound non-returns are inconclusive; keyword triples and head arity above 4 not covered.")
 add("C12", "exploration",
     "runtime monitoring of the real middleware chain around a scriptable innermost dev directive (verifprobe): sequential raw-socket cases per child process with a same-connection barrier request, client-side reference oracle for status and decoded body, exact attribution of net/http's superfluous-WriteHeader diagnostics, new-connection liveness probe after every panic",
     "Every subset of the 11 wrapping directives (3072 sites thorough, 488 quick) x 58 scripted contract-respecting handler behaviours x {GET,HEAD,POST} x Accept-Encoding {none,gzip}, each checked against the statement's reference (2.1 M requests thorough; 170 k quick).",
@@ -55,10 +67,30 @@ add("C14", "fault_enumeration",
     "Bursts of 4-64 simultaneous requests through the real proxy against gate-holding backends for every setting of hosts x policy x max_conns x max_fails x fail_timeout, with per-request outcomes ok / backend abort / client cancel / panic while committing; Conns must equal forwards at every quiescent point, never exceed max_conns, return to zero; Fails must match unexpired failures, down-ness must follow max_fails, and both must expire.",
     "A backend handler in flight implies a forward in flight only while no client has cancelled (gauge read before cancels); expiry judged with lower bounds only; active health checks not driven.")
 
+add("C15", "exploration",
+    "runtime monitoring with a reference model: Casketfiles loaded by the real address parser and tls setup, the real activateHTTPS stages (verif-tagged hook) and MakeServers executed, resulting flags, ports and server set compared with a predicate written from the statement; synthesised redirect sites exercised through Server.ServeHTTP and, end to end, over real sockets with redirect following",
+    "Exhaustive single-site product (scheme x 16 host classes x port x 10 tls variants, plus bind), same-host ordered pairs and shared-block pairs (sampled in quick, exhaustive in thorough), sampled triples and cross-host pairs: ~21 k site sets quick, ~443 k thorough; every synthesised redirect site driven with a 30-40 request battery; 11 (quick) / 33 (thorough) real instances have their redirect followed over TLS.",
+    "Qualification decided by a reference predicate, never by casket's helpers; real ACME issuance, on-demand TLS and the managed-site path of the real parsing callback are not exercised (no network).")
+add("C16", "fault_enumeration",
+    "runtime monitoring: a harness server type (public RegisterServerType) whose servers are real TCP listeners and whose six callback kinds append to one sequence-numbered trace; a reference lifecycle model steps in lockstep and compares, per operation, the exact multiset of callbacks and the statement's order constraints; Wait() monitored by sequence numbers; process-level endings judged from the child's trace file and exit status; Go race detector",
+    "Every operation sequence of length <=3 (quick; <=4 thorough) plus sampled longer ones over {reload-ok, reload failing at parse / setup / restart-callback / startup-callback / listen, stop+start, shutdown-callbacks} with graceful (inherited listeners) and plain servers: 3 k (quick) / 10 k+ (thorough) histories; 12 signal scenarios (SIGTERM, SIGINT, SIGINT x2, SIGQUIT, concurrent and repeated signals, SIGUSR1 ok/failing then shutdown) in child processes.",
+    "Callbacks returning errors during a successful reload are outside the quantifier; for the discarded instance of a failed reload only 'startup at most once, first-startup never' is asserted; SIGQUIT / second SIGINT only require at-most-once.")
+add("C17", "exploration",
+    "runtime monitoring: a real casket instance driven over loopback with generated nested limit tables, body lengths around each limit, framings and handler read sizes; a reference model (longest matching scope) judges the byte counts, checksums and errors seen by the innermost probe and by a recording proxy backend plus the 413 status; effective listener settings read from the http.Server objects the real MakeServers builds, cross-checked at the socket for the header limit",
+    "About 13 k (quick) / 234 k (thorough) executions covering all length, framing and read-size classes on 16-24 tables and four site kinds, and every assignment of 5 value classes to 1-4 co-hosted sites for each of the 5 listener settings (exhaustive per field in both tiers).",
+    "Finite alphabets of sizes, paths and timeouts; timeouts are checked as configured fields, not by waiting; for an over-limit proxied body the backend may receive fewer than L bytes (prefix required).")
 add("C18", "exploration",
     "runtime monitoring: differential twin-site oracle at the socket boundary with strict content-coding decoders (gzip/br/zstd/deflate), scriptable innermost handlers (verifprobe + verifc18), precompressed static fixtures, 16 concurrent connections under the Go race detector attributed to caskethttp/gzip frames",
     "Every generated request is answered by a plain site and 8 gzip twin sites (default, ext, not, level 1/9, min_length variants); raw responses are strictly decoded per Content-Encoding and compared (22.5 k pairs quick, 542 k thorough); complete enumeration of inner coding x Accept-Encoding x write pattern and of sibling subset x Accept-Encoding x extension.",
     "Floors require gzip to have been applied per variant/kind/pattern and pre-coded responses to pass; violations re-checked alone to separate pooled-writer cross talk; HTTP/2, HEAD and contract-breaking handlers not driven.")
+add("C19", "exploration",
+    "runtime monitoring in journalled child processes: structure-aware mutation fuzzing through verif hooks with recover at the entry point; a real TCP segmentation driver with a consumed-bytes barrier and a whole-bytes-parse reference; end to end a real casket instance with a scripted hostile FastCGI responder, a raw backend and an HTTP/2 framer client with push; oracle = process-log panic scan plus a passive outermost stack-capturing directive and liveness probes",
+    "No panic on 2.6 M (quick) / 36 M (thorough) generated peer inputs across the ClientHello parser and heuristics, the real hello-recording listener, the MITM handler, the Link parser (exhaustive to length 6/8 over '<>;=, a'), scripted hostile FastCGI responders and hostile requests against a full instance; every 2-segmentation and sampled 3/4-segmentations of 7 crypto/tls hellos record exactly the whole-bytes parse.",
+    "The heuristic x User-Agent layer is hook-driven because crypto/tls cannot emit browser-shaped hellos; multi-record hellos, QUIC, hanging responders and sites with an errors directive are not covered; thorough distinct_nontrivial is a lower bound (key shipping capped per child).")
+add("C20", "exploration",
+    "runtime monitoring of a real casket instance: generated Casketfiles and hostile request batteries over raw keep-alive sockets from 32 connections, a recorded-history oracle over the access-log files (exactly-once id-set comparison per log, reference model of scope/except, independent single-pass reference expander), Go race detector attributed to ResponseRecorder, replacer and Logger",
+    "Quick 14 400 / thorough 360 000 requests judged against 1-6 generated log directives per site (~100 / ~2 000 distinct formats over the whole placeholder vocabulary), every non-panic handler outcome and server-generated response, wrappers gzip/errors/header/templates.",
+    "Status and size compared with what the client read off the wire (gzip: compressed length; HEAD excluded); either reading accepted where the statement is silent; overlapping scopes, TLS-valued placeholders and HTTP/2 not generated.")
 LEVEL_NOTE_DEFAULT = ""
 
 def main():
